@@ -18,7 +18,7 @@ import z3
 
 from pyvc.harness import Scenario
 from pyvc.interp import Interp, PyRaise
-from pyvc.values import SObj, SInt, Opaque, term
+from pyvc.values import SObj, SInt, Opaque, term, SBool
 from .irmodel import World, NArr, OpRecorder
 from .c10_version import GraphLike
 
@@ -594,3 +594,209 @@ def s_if_op(ctx):
 SCENARIOS.append(Scenario("C03.folding.if_op", s_if_op, F("if_op", "if_op.rename"), kind="bounded",
                           bound="branches of 1-2 nodes, 1-2 outputs (possibly the same value twice)",
                           trusted=["ir.Graph.remove / outputs (onnx_ir); _move_initializers_to_graph has its own contract"]))
+
+
+# ------------------------------------------------------------------ process_node for a node with ANY number of inputs (deductive) ---
+
+def s_process_node_anyinputs(ctx, opkind=0):
+    """FoldConstantsPass.process_node on a node with ANY number of inputs (each absent / a value with arbitrary flags): the substitution
+    loop (inductive invariant on a ghost log of replace_input_with calls) and the guard chain of any()/all() over the inputs, used at ONE
+    arbitrary (Skolem) input position j0.  Reference evaluation happens only behind every guard, gets every input at its own position,
+    and the default size rule is respected."""
+    import onnx_ir as ir
+    from pyvc.interp import LoopSpec, StarArgs
+    from pyvc.values import SSeq, SInt
+    cf = _cf()
+    I = Interp(ctx)
+    I.quant_skolem = True
+    W = World(I)
+    I_ = z3.IntSort()
+    B_ = z3.BoolSort()
+    n = ctx.int("n_inputs")
+    ctx.assume(n >= 0)
+    j0 = ctx.int("j0")
+    ctx.assume(z3.And(j0 >= 0, j0 < n))
+    ctx.witness.update(n=n, j0=j0)
+    absent = z3.Function("absent", I_, B_)
+    symkind = z3.Function("sym_value_kind", I_, I_)      # 0 none, 1 an equal ir.Value, 2 a Shape
+    # flags of the ORIGINAL input i (o=0) and of the value it is known to equal (o=1)
+    gi = z3.Function("is_graph_input", I_, I_, B_)
+    hasc = z3.Function("has_const_value", I_, I_, B_)
+    size = z3.Function("const_size", I_, I_, I_)
+    single = z3.Function("single_consumer", I_, I_, B_)
+    limit = 100
+    sf = [None, True, False][ctx.choose(3, "should_fold")]
+    p = SObj(cf.FoldConstantsPass, "pass")
+
+    def should_fold(nd):
+        raise AssertionError
+    I.models[should_fold] = lambda interp, nd: sf
+    state = SObj(cf.OptimizerState, "state")
+    p.fields.update(_state=state, _opset_imports={"": 18}, shape_inference=False, input_size_limit=limit, output_size_limit=limit,
+                    should_fold=should_fold, _modified=False)
+    flags = {"is_constant_op": opkind == 1, "blacklisted": opkind == 2, "always_fold_op": opkind == 3}
+    for nm in ("has_graph_attribute", "non_deterministic"):
+        flags[nm] = ctx.choose(2, nm) == 1
+    cache = {}
+    ghost = {"R": z3.K(I_, z3.BoolVal(False))}     # ghost: positions on which replace_input_with was called (with the equal value)
+
+    def mk_value(i, o):
+        key = (i.get_id(), o)
+        if key in cache:
+            return cache[key]
+        ctx.assume(size(i, z3.IntVal(o)) >= 0)
+        t = None
+        oo = z3.IntVal(o)
+        if ctx.branch(hasc(i, oo)):
+            t = W.tensor([1] * 2, ir.DataType.INT64)
+            t.fields["size"] = SInt(size(i, oo))
+        v = SObj(ir.Value, f"in_{'alias' if o else 'orig'}")
+        v.idx, v.o = i, o
+        v.fields.update(name=("alias" if o else "in"), shape=None, type=None, dtype=ir.DataType.INT64, const_value=t, meta={}, metadata_props={})
+
+        def igi():
+            raise AssertionError
+
+        def cons():
+            raise AssertionError
+        I.models[igi] = lambda interp, i=i, oo=oo: SBool(gi(i, oo))
+        I.models[cons] = lambda interp, i=i, oo=oo: ([("consumer", 0)] if interp.ctx.branch(single(i, oo)) else [("consumer", 0), ("consumer", 1)])
+        v.fields.update(is_graph_input=igi, consumers=cons, uses=cons)
+        cache[key] = v
+        return v
+
+    def eff(i):
+        """which value position i of node.inputs holds NOW: the equal value once replace_input_with(i, ...) was called"""
+        return z3.Select(ghost["R"], i)
+
+    def input_at(i):
+        i = z3.simplify(i)
+        if ctx.branch(absent(i)):
+            return None
+        return mk_value(i, 1) if ctx.branch(eff(i)) else mk_value(i, 0)
+    inputs = SSeq(n, input_at, name="node.inputs")
+    op_type = "Constant" if flags["is_constant_op"] else ("ConstantOfShape" if flags["blacklisted"] else ("Transpose" if flags["always_fold_op"] else "Add"))
+    node = W.node(op_type, [], attrs={})
+    node.fields["inputs"] = inputs
+    attr_kind = ["none", "int", "reference"][ctx.choose(3, "attribute")]
+    if attr_kind != "none":
+        a = SObj(ir.Attr, "axis")
+        is_ref = attr_kind == "reference"
+        a.fields.update(name="axis", type=ir.AttributeType.INT, value=(None if is_ref else 7), ref_attr_name=("outer_axis" if is_ref else None))
+
+        def f_is_ref():
+            raise AssertionError
+        I.models[f_is_ref] = (lambda r: lambda interp: r)(is_ref)
+        a.fields["is_ref"] = f_is_ref
+        node.fields["attributes"]["axis"] = a
+    if flags["has_graph_attribute"]:
+        a = SObj(ir.Attr, "body")
+        a.fields.update(name="body", type=ir.AttributeType.GRAPH, value=Opaque("graph"))
+        node.fields["attributes"]["body"] = a
+    wrong_sub = []
+
+    def rip(i, v):
+        raise AssertionError
+
+    def m_rip(interp, i, v):
+        it = term(i)
+        # ghost: the position now holds the equal value; anything else handed over is recorded as a wrong substitution
+        if not (isinstance(v, SObj) and getattr(v, "o", None) == 1 and interp.ctx.branch(v.idx == it)):
+            wrong_sub.append((i, v))
+        ghost["R"] = z3.Store(ghost["R"], it, z3.BoolVal(True))
+        inputs._cache = {}
+    I.models[rip] = m_rip
+    node.fields["replace_input_with"] = rip
+
+    def m_get_sym(interp, slf, v):
+        if v is None or getattr(v, "o", 1) == 1:
+            return None
+        k = symkind(v.idx)
+        ctx.assume(z3.And(k >= 0, k <= 2))
+        if interp.ctx.branch(k == 0):
+            return None
+        if interp.ctx.branch(k == 1):
+            return mk_value(v.idx, 1)
+        return ir.Shape([2])
+    I.models[cf.OptimizerState.get_sym_value] = m_get_sym
+
+    def want_replaced(i):
+        return z3.And(z3.Not(absent(i)), symkind(i) == 1)
+
+    def heap_havoc(interp, env):
+        ghost["R"] = z3.Const(ctx.fresh("replaced"), z3.ArraySort(I_, B_))
+        inputs._cache = {}
+        p.fields["_modified"] = SBool(ctx.bool("modified"))
+
+    def inv(interp, env, k, pre, it):
+        return [("position_j0_substituted_iff_it_has_an_equal_value_once_the_loop_passed_it",
+                 z3.And(z3.Implies(k > j0, eff(j0) == want_replaced(j0)), z3.Implies(k <= j0, z3.Not(eff(j0))))),
+                ("only_equal_values_are_substituted", z3.BoolVal(not wrong_sub))]
+    I.loops[("FoldConstantsPass.process_node", 0)] = LoopSpec({}, inv, heap_havoc=heap_havoc)
+    evals = []
+    eval_kwargs = []
+    I.models[cf._is_non_deterministic_op] = lambda interp, nd: flags["non_deterministic"]
+    I.models[cf._process_constant_node] = lambda interp, nd: None
+    I.models[cf.registry.lookup_evaluators] = lambda interp, d, o, v: []
+    okev = ctx.choose(2, "reference evaluation succeeds") == 0
+    I.models[cf._reference_evaluator.evaluate] = lambda interp, *a, **k: (evals.append(a) or eval_kwargs.append(k) or (NArr([1, 2], None) if okev else None))
+    I.models[cf.FoldConstantsPass.new_initializer] = lambda interp, s, nd, arr: "new_initializer_value"
+    I.models[cf.FoldConstantsPass.new_constant] = lambda interp, s, nd, arr: None
+    I.models[cf._get_numpy_value] = lambda interp, x, *a, **k: (None if x is None else ("numpy value of", x))
+    g = SObj(object, "graph")
+
+    def reg(v):
+        raise AssertionError
+    I.models[reg] = lambda interp, v: None
+    g.fields["register_initializer"] = reg
+    node.fields["graph"] = g
+    clo = I.closure_of(cf.FoldConstantsPass.process_node)
+    try:
+        r = I.run_closure(clo, [p, node, False], {})
+    except PyRaise:
+        ctx.check("C04.folding.process_node.any_inputs.never_raises_without_partial_evaluators", False, "C04: 'return without raising'")
+        return
+    TAG = "C03.folding.process_node.any_inputs."
+    ctx.check(TAG + "input_j0_substituted_iff_the_state_knows_an_equal_value", eff(j0) == want_replaced(j0), CL03)
+    ctx.check(TAG + "only_equal_values_are_substituted", not wrong_sub, CL03)
+    if not evals:
+        ctx.cover("process_node.any_inputs.not_evaluated")
+        ctx.check(TAG + "no_replacement_without_evaluation", r is None, CL03)
+        return
+    ctx.cover("process_node.any_inputs.evaluated")
+    I.instantiate_forall(j0)          # the any()/all() guards held for every input: use them at j0
+    o = z3.If(eff(j0), 1, 0)          # the value position j0 holds after the substitution
+    present = z3.Not(absent(j0))
+    ctx.check(TAG + "evaluation_only_behind_the_node_level_guards",
+              not flags["is_constant_op"] and not flags["has_graph_attribute"] and not flags["non_deterministic"] and sf is not False, CL03)
+    ctx.check("C04.folding.process_node.any_inputs.no_evaluation_of_nodes_reading_graph_inputs", z3.Implies(present, z3.Not(gi(j0, o))), CL04)
+    ctx.check(TAG + "evaluation_only_if_every_present_input_is_constant", z3.Implies(present, hasc(j0, o)), CL03)
+    ctx.check(TAG + "no_evaluation_with_an_unresolved_attribute_reference", attr_kind != "reference", CL03)
+    a = evals[-1]
+    ok = len(a) == 4 and a[:2] == ("", op_type) and isinstance(a[3], StarArgs)
+    ctx.check(TAG + "evaluator_called_with_domain_op_version_and_the_inputs", ok, CL03)
+    if ok:
+        vals = a[3].seq
+        ctx.check(TAG + "evaluator_gets_one_value_per_input_position", vals.len == n, CL03 + " — an omitted optional input stays an empty position")
+        e = vals.at(j0)
+        if e is None:
+            ctx.check(TAG + "evaluator_gets_every_input_at_its_own_position", absent(j0), CL03)
+        else:
+            okpos = isinstance(e, tuple) and isinstance(e[1], SObj)
+            ctx.check(TAG + "evaluator_gets_every_input_at_its_own_position",
+                      z3.And(z3.BoolVal(okpos), present, e[1].idx == j0, z3.BoolVal(e[1].o == 1) == eff(j0)) if okpos else False, CL03)
+    kw = eval_kwargs[-1]
+    ctx.check(TAG + "evaluator_gets_the_attributes_by_name", set(kw) == set(node.fields["attributes"]) and (attr_kind != "int" or kw.get("axis") == 7), CL03)
+    if sf is None:
+        large = z3.And(present, size(j0, o) > limit)
+        ctx.check(TAG + "default_rules_respect_blacklist_and_input_size_limit",
+                  z3.And(z3.BoolVal(not flags["blacklisted"]), z3.Implies(large, z3.And(z3.BoolVal(op_type == "Transpose"), single(j0, o)))),
+                  "C03: 'under any combination of its options ... input/output size limits'")
+
+
+for _k, _nm in ((0, "plain op"), (1, "Constant"), (2, "blacklisted op"), (3, "always-fold op")):
+    SCENARIOS.append(Scenario(f"C03.folding.process_node[any number of inputs, {_nm}]", (lambda k: lambda ctx: s_process_node_anyinputs(ctx, k))(_k), F("FoldConstantsPass.process_node"),
+                              trusted=["registered partial evaluators and _get_numpy_value have their own contracts (c03_folding); ir.Node.replace_input_with (onnx_ir) replaces input i",
+                                       "OptimizerState.get_sym_value is abstract: what the state knows about an input is an arbitrary function of the position"],
+                              assumptions=["loop invariant and the any()/all() guards are used at one arbitrary (Skolem) input position; termination not proved"],
+                              max_paths=40000, budget_s=900))
